@@ -200,6 +200,9 @@ func (o *lifeOracle) c12(e *Env, si *StepInfo) {
 			delete(o.waiting, id)
 			continue
 		}
+		if pending {
+			continue // not handed to providers yet (C12 speaks about handed-out orders)
+		}
 		wi := o.waiting[id]
 		if wi == nil {
 			wi = &waitInfo{since: si.Height, providers: map[string]bool{}, timeout: ord.Timeout}
@@ -210,9 +213,6 @@ func (o *lifeOracle) c12(e *Env, si *StepInfo) {
 			if sh, ok := cur.Order.Shards[sid]; ok {
 				wi.providers[sh.Sp] = true
 			}
-		}
-		if pending {
-			continue // not handed to providers yet (C12 speaks about handed-out orders)
 		}
 		at, ok := sched[id]
 		if !ok || at > h+ord.Timeout {
